@@ -151,7 +151,15 @@ func (c *panicClient) Visit(e *Engine, st *State, n ast.Node) *State {
 		ok, how := c.dischargeIndex(e, st, x.X, e.ResolveDeep(x.Index))
 		c.report(e, x, ok, how)
 	case *ast.SliceExpr:
-		rx := &ast.SliceExpr{X: x.X, Lbrack: x.Lbrack, Low: e.ResolveDeep(x.Low), High: e.ResolveDeep(x.High), Max: x.Max, Slice3: x.Slice3, Rbrack: x.Rbrack}
+		lo, hi := x.Low, x.High
+		// a bound that is only ever corrected to the other bound (`if hi < lo { hi = lo }`): the corrected slice is
+		// the empty one at a position the uncorrected slice already needs to be valid
+		if d := c.p.clampedBound(hi, lo); d != nil {
+			hi = d
+		} else if d := c.p.clampedBound(lo, hi); d != nil {
+			lo = d
+		}
+		rx := &ast.SliceExpr{X: x.X, Lbrack: x.Lbrack, Low: e.ResolveDeep(lo), High: e.ResolveDeep(hi), Max: x.Max, Slice3: x.Slice3, Rbrack: x.Rbrack}
 		// s[a:len(s)] is s[a:]
 		if call, ok := ast.Unparen(rx.High).(*ast.CallExpr); ok && IsBuiltinCall(info, call, "len") && len(call.Args) == 1 {
 			ka, kb := e.CanonSt(st, call.Args[0]), e.CanonSt(st, x.X)
@@ -279,6 +287,23 @@ func (c *panicClient) dischargeIndex(e *Engine, st *State, base, idx ast.Expr) (
 			return false, "non-emptiness of " + exprStr(base) + " is not known here"
 		}
 	}
+	// e[i-k] inside a loop whose counter runs k ahead of the index (for i := len(e); i > 0; i-- { e[i-1] })
+	if b, ok := ast.Unparen(idx).(*ast.BinaryExpr); ok && b.Op == token.SUB {
+		if k, isC := constInt(info, b.Y); isC && k >= 1 {
+			if o := objOf(info, b.X); o != nil {
+				found := false
+				e.P.ancestors(idx, e.CurFunc(), func(anc, _ ast.Node) bool {
+					if l, isFor := anc.(*ast.ForStmt); isFor && isShiftedLoopOver(info, l, o, base, k) && !resizes(info, l.Body, base) {
+						found = true
+					}
+					return !found
+				})
+				if found {
+					return true, "I-loop: the loop counter runs a constant ahead of the index over all indices of the same slice"
+				}
+			}
+		}
+	}
 	// e[i] inside a counted / range loop over e
 	if o := objOf(info, idx); o != nil {
 		found := false
@@ -305,6 +330,43 @@ func (c *panicClient) dischargeIndex(e *Engine, st *State, base, idx ast.Expr) (
 		})
 		if found {
 			return true, "I-loop: index variable of a loop over all indices of the same slice"
+		}
+		// for i := <cursor>; i < len(e); i++: from the cursor of the parser or scanner (never negative: it starts at 0
+		// and moves back only over what was read, C12/cursor) up to the end
+		fromCursor := false
+		e.P.ancestors(idx, e.CurFunc(), func(anc, _ ast.Node) bool {
+			l, isFor := anc.(*ast.ForStmt)
+			if !isFor {
+				return true
+			}
+			init, okI := l.Init.(*ast.AssignStmt)
+			cond, okC := l.Cond.(*ast.BinaryExpr)
+			post, okP := l.Post.(*ast.IncDecStmt)
+			if !okI || !okC || !okP || len(init.Lhs) != 1 || len(init.Rhs) != 1 || objOf(info, init.Lhs[0]) != o || objOf(info, cond.X) != o || cond.Op != token.LSS || objOf(info, post.X) != o || post.Tok != token.INC {
+				return true
+			}
+			ln, isLen := ast.Unparen(cond.Y).(*ast.CallExpr)
+			if !isLen || !IsBuiltinCall(info, ln, "len") || len(ln.Args) != 1 || !sameExpr(info, ln.Args[0], base) || writesTo(info, l.Body, o) || resizes(info, l.Body, base) {
+				return true
+			}
+			if sel, isSel := ast.Unparen(init.Rhs[0]).(*ast.SelectorExpr); isSel {
+				if f := selField(info, sel); f != nil && fldName(f) == "pos" {
+					t := info.TypeOf(sel.X)
+					if pt, isP := t.(*types.Pointer); isP {
+						t = pt.Elem()
+					}
+					if n, isN := t.(*types.Named); isN && n.Obj().Pkg() != nil && n.Obj().Pkg().Path() == PathParser && (objName(n.Obj()) == "parser" || objName(n.Obj()) == "scanner") {
+						fromCursor = true
+					}
+				}
+			}
+			if v, isC := constInt(info, init.Rhs[0]); isC && v >= 0 {
+				fromCursor = true
+			}
+			return !fromCursor
+		})
+		if fromCursor {
+			return true, "I-loop: index variable of a loop from the cursor (or a constant >= 0) up to the length of the same slice"
 		}
 		// relational fact i < len(e) with i >= 0 known
 		ki, kb := e.CanonSt(st, idx), e.CanonSt(st, base)
@@ -428,6 +490,25 @@ func (c *panicClient) dischargeSlice(e *Engine, st *State, x *ast.SliceExpr) (bo
 	if x.Low == nil && x.High != nil {
 		if v, ok := constInt(info, x.High); ok && v == 0 {
 			return true, "I-const: e[:0]"
+		}
+	}
+	// e[:h] where the path knows h <= len(e) (a comparison of the two that was just made) and h is not negative
+	if x.Low == nil && x.High != nil {
+		hk, bk := e.CanonSt(st, x.High), e.CanonSt(st, x.X)
+		if hk.OK && bk.OK {
+			lenB := "len(" + bk.Key + ")"
+			nonNeg := strings.HasPrefix(hk.Key, "len(")
+			if f := st.Get(hk.Key); f != nil && f.Lo != nil && *f.Lo >= 0 {
+				nonNeg = true
+			}
+			is := func(key, want string) bool {
+				f := st.Get(key)
+				return f != nil && f.HasEq && f.Eq == want
+			}
+			le := is("("+hk.Key+" < "+lenB+")", "true") || is("("+hk.Key+" <= "+lenB+")", "true") || is("("+lenB+" < "+hk.Key+")", "false")
+			if nonNeg && le {
+				return true, "I-rel: the upper bound was compared with the length of the slice on this path and is not negative"
+			}
 		}
 	}
 	// e[:max(f(e, ...), 0)] with f a search that reports a position inside e or a negative number: the bound lies in
@@ -867,42 +948,7 @@ func ruleC12Support(p *Program, r *Run) {
 		}
 	}
 	r.Floor("C12/nonempty", 4)
-	// C12/post: splitQueries (and any helper of the same shape it hands its list to) returns the list with at least
-	// one more element than it was given. Decided on path facts at every successful return: the list was appended
-	// to on this path (or replaced by the result of a function of the same shape called with it), or it is known
-	// to differ in length from the length saved at entry while every assignment to it only makes it longer.
-	sq := p.MustFunc(p.PQL, "splitQueries")
-	info := p.PQL.TypesInfo
-	growers := map[*types.Func]*ast.FuncDecl{}
-	sqSig := FuncObj(p.PQL, sq).Type().(*types.Signature)
-	for _, fd := range AllFuncs(p.PQL) {
-		fn := FuncObj(p.PQL, fd)
-		sig := fn.Type().(*types.Signature)
-		if sig.Params().Len() > 0 && sig.Results().Len() == 2 && types.Identical(sig.Params().At(0).Type(), sqSig.Params().At(0).Type()) &&
-			types.Identical(sig.Results().At(0).Type(), sqSig.Results().At(0).Type()) && TypeStr(sig.Results().At(1).Type()) == "error" {
-			growers[fn] = fd
-		}
-	}
-	okPost, postWhy := true, ""
-	for fn, fd := range growers {
-		if fn != FuncObj(p.PQL, sq) && !p.callsAny(sq, map[*types.Func]bool{fn: true}) {
-			continue
-		}
-		pc := &postClient{growers: growers, list: info.Defs[fd.Type.Params.List[0].Names[0]]}
-		pe := NewEngine(p, p.PQL, fd, pc)
-		pe.Run(nil)
-		if len(pe.Errs) > 0 {
-			okPost, postWhy = false, strings.Join(pe.Errs, "; ")
-		}
-		if pc.bad != "" {
-			okPost, postWhy = false, FuncName(p.PQL, fd)+": "+pc.bad
-		}
-		if pc.returns == 0 {
-			okPost, postWhy = false, FuncName(p.PQL, fd)+" has no successful return"
-		}
-	}
-	_ = info
-	r.Check(okPost, "C12/post", "pql.splitQueries returns at least one subquery more than it was given", p.Pos(sq.Pos()), "at every successful return the list is known to be longer than at entry (appended to on the path, or of a different length than saved at entry while it only ever grows)", "splitQueries can return without having appended a subquery: callers index its last element ("+postWhy+")")
+	ruleC12Post(p, r)
 	// C12/variadic: firstParse is always called with >= 1 production
 	fp := p.FuncDecl(p.Parser, "firstParse")
 	if fp == nil {
@@ -1475,4 +1521,123 @@ func isDownLoopOver(info *types.Info, l *ast.ForStmt, i, p types.Object) bool {
 	}
 	dec, ok := l.Post.(*ast.IncDecStmt)
 	return ok && dec.Tok == token.DEC && objOf(info, dec.X) == i
+}
+
+// clampedBound: v is a local that is defined once and otherwise only assigned the other bound of the same slice
+// expression, inside an `if` that compares the two. Returns the defining expression.
+func (p *Program) clampedBound(v, other ast.Expr) ast.Expr {
+	if v == nil || other == nil {
+		return nil
+	}
+	vid, ok := ast.Unparen(v).(*ast.Ident)
+	oid, ok2 := ast.Unparen(other).(*ast.Ident)
+	if !ok || !ok2 {
+		return nil
+	}
+	vo, oo := objOf(p.Info, vid), objOf(p.Info, oid)
+	if vo == nil || oo == nil || vo == oo {
+		return nil
+	}
+	var fn ast.Node = vid
+	for fn != nil {
+		if _, isFD := fn.(*ast.FuncDecl); isFD {
+			break
+		}
+		fn = p.Parent(fn)
+	}
+	if fn == nil {
+		return nil
+	}
+	var def ast.Expr
+	good, clamps := true, 0
+	ast.Inspect(fn, func(n ast.Node) bool {
+		switch st := n.(type) {
+		case *ast.AssignStmt:
+			for i, l := range st.Lhs {
+				if objOf(p.Info, l) != vo {
+					continue
+				}
+				if st.Tok == token.DEFINE && len(st.Lhs) == len(st.Rhs) && def == nil {
+					def = st.Rhs[i]
+					continue
+				}
+				// v = other, directly inside `if v <op> other { ... }`
+				isClamp := false
+				if st.Tok == token.ASSIGN && len(st.Lhs) == 1 && len(st.Rhs) == 1 && objOf(p.Info, st.Rhs[0]) == oo {
+					if blk, isBlk := p.Parent(st).(*ast.BlockStmt); isBlk && len(blk.List) == 1 {
+						if is, isIf := p.Parent(blk).(*ast.IfStmt); isIf && is.Else == nil && is.Init == nil {
+							if b, isB := ast.Unparen(is.Cond).(*ast.BinaryExpr); isB {
+								switch b.Op {
+								case token.LSS, token.GTR, token.LEQ, token.GEQ:
+									a, c := objOf(p.Info, b.X), objOf(p.Info, b.Y)
+									if (a == vo && c == oo) || (a == oo && c == vo) {
+										isClamp = true
+									}
+								}
+							}
+						}
+					}
+				}
+				if isClamp {
+					clamps++
+				} else {
+					good = false
+				}
+			}
+		case *ast.IncDecStmt:
+			if objOf(p.Info, st.X) == vo {
+				good = false
+			}
+		case *ast.UnaryExpr:
+			if st.Op == token.AND && objOf(p.Info, st.X) == vo {
+				good = false
+			}
+		}
+		return true
+	})
+	if !good || clamps == 0 || def == nil {
+		return nil
+	}
+	return def
+}
+
+// ruleC12Post: splitQueries hands back a longer list than it was given (also part of C03: the right side of a join
+// is the last subquery the recursion returned, which is the right-hand pipeline only if the recursion added one).
+func ruleC12Post(p *Program, r *Run) {
+	// C12/post: splitQueries (and any helper of the same shape it hands its list to) returns the list with at least
+	// one more element than it was given. Decided on path facts at every successful return: the list was appended
+	// to on this path (or replaced by the result of a function of the same shape called with it), or it is known
+	// to differ in length from the length saved at entry while every assignment to it only makes it longer.
+	sq := p.MustFunc(p.PQL, "splitQueries")
+	info := p.PQL.TypesInfo
+	growers := map[*types.Func]*ast.FuncDecl{}
+	sqSig := FuncObj(p.PQL, sq).Type().(*types.Signature)
+	for _, fd := range AllFuncs(p.PQL) {
+		fn := FuncObj(p.PQL, fd)
+		sig := fn.Type().(*types.Signature)
+		if sig.Params().Len() > 0 && sig.Results().Len() == 2 && types.Identical(sig.Params().At(0).Type(), sqSig.Params().At(0).Type()) &&
+			types.Identical(sig.Results().At(0).Type(), sqSig.Results().At(0).Type()) && TypeStr(sig.Results().At(1).Type()) == "error" {
+			growers[fn] = fd
+		}
+	}
+	okPost, postWhy := true, ""
+	for fn, fd := range growers {
+		if fn != FuncObj(p.PQL, sq) && !p.callsAny(sq, map[*types.Func]bool{fn: true}) {
+			continue
+		}
+		pc := &postClient{growers: growers, list: info.Defs[fd.Type.Params.List[0].Names[0]]}
+		pe := NewEngine(p, p.PQL, fd, pc)
+		pe.Run(nil)
+		if len(pe.Errs) > 0 {
+			okPost, postWhy = false, strings.Join(pe.Errs, "; ")
+		}
+		if pc.bad != "" {
+			okPost, postWhy = false, FuncName(p.PQL, fd)+": "+pc.bad
+		}
+		if pc.returns == 0 {
+			okPost, postWhy = false, FuncName(p.PQL, fd)+" has no successful return"
+		}
+	}
+	_ = info
+	r.Check(okPost, "C12/post", "pql.splitQueries returns at least one subquery more than it was given", p.Pos(sq.Pos()), "at every successful return the list is known to be longer than at entry (appended to on the path, or of a different length than saved at entry while it only ever grows)", "splitQueries can return without having appended a subquery: callers index its last element ("+postWhy+")")
 }
